@@ -235,10 +235,22 @@ func applyPadRules(rv reflect.Value, name string) {
 }
 
 // ApplyRelations makes count/length fields agree with their buffers.
+// Derived holds fields whose value is fixed by the wire form itself rather than by a buffer:
+// NegotiateRequest.WordCount mirrors the count byte of the parameter block, and that request has
+// no parameter words (MS-CIFS 2.2.4.52.1: WordCount 0x00).
+var Derived = map[string]map[string]uint64{
+	"NegotiateRequest": {"WordCount": 0},
+}
+
 func ApplyRelations(c Cmd) {
 	rv := reflect.ValueOf(c).Elem()
 	name := rv.Type().Name()
 	applyPadRules(rv, name)
+	for f, v := range Derived[name] {
+		if fv := rv.FieldByName(f); fv.IsValid() && fv.CanUint() {
+			fv.SetUint(v)
+		}
+	}
 	for _, r := range Relations[name] {
 		buf := fieldByPath(rv, r.Buffer)
 		cnt := fieldByPath(rv, r.Count)
@@ -519,6 +531,9 @@ func SetPattern(v reflect.Value, p []byte) (le []byte) {
 
 // IsCountField reports whether field name is a count/length/offset field of a relation of struct s.
 func IsCountField(s, name string) bool {
+	if _, ok := Derived[s][name]; ok {
+		return true
+	}
 	for _, r := range Relations[s] {
 		if r.Count == name {
 			return true
